@@ -33,7 +33,7 @@ func selfTest(ctx *core.Ctx) error {
 			resurrect.Probes[i][2] = 1 // freed object still answers
 		}
 	}
-	lgood, err := runLen(lenCase{"len", []byte("abc def"), int(ser.LenMissing), 0, 5})
+	lgood, err := runLen(lenCase{Kind: "len", Body: []byte("abc def"), Mode: int(ser.LenMissing), RSeed: 5})
 	if err != nil {
 		return core.Infra("self-test: %v", err)
 	}
@@ -107,6 +107,13 @@ func selfTest(ctx *core.Ctx) error {
 	}
 	if r4.Invariant != "TrailerOK" {
 		return core.Infra("self-test: a reader that merges the trailers of the /Prev chain should violate TrailerOK, got %q", r4.Invariant)
+	}
+	r5, err := ctx.TLC(core.TLCOpts{Dir: specDir, Module: "MC_XRefHistory", Cfg: "MC_XRefHistory_zerolen.cfg", Workers: 8, Mode: "negative-control", XssMB: 512})
+	if err != nil {
+		return err
+	}
+	if r5.Invariant != "ExtentOK" && r5.Invariant != "CorrectOK" {
+		return core.Infra("self-test: a /Length of 0 treated as unknown should violate ExtentOK or CorrectOK, got %q", r5.Invariant)
 	}
 	for _, nc := range []string{"keygen0", "decmembers"} {
 		r, err := ctx.TLC(core.TLCOpts{Dir: specDir, Module: "MC_XRefHistory", Cfg: "MC_XRefHistory_" + nc + ".cfg", Workers: 8, Mode: "negative-control", XssMB: 512})
